@@ -36,3 +36,16 @@ Print Assumptions C15_integer_widen_then_narrow.
 Example C15_witness : p_of_num 8 0 (p_to_num 16 1 0x4100) = 0x42 /\ p_of_num 16 1 (p_to_num 8 0 0x42) = 0x4100
   /\ fx_of_Q 8 2 false (fx_val 8 4 0x1a) = 0x06 /\ fx_of_Q 8 4 true (fx_val 12 4 0x7ff) = 0x7f /\ i_conv 8 12 0x80 = 0xf80.
 Proof. vm_compute. repeat split; reflexivity. Qed.
+
+(* lns -> lns: the source value is 2^(E1/2^r1) exactly; whenever the target has at least as many fraction bits and the scaled exponent
+   is in its range, the only result the judge accepts is that very value (identity when representable), in both behaviours *)
+From UV Require Import LnsModel LnsProps.
+Theorem C15_lns_identity_when_representable : forall n1 r1 a n2 r2 sat c s E1,
+  0 <= r1 <= r2 -> l_decode n1 a = LVal s E1 -> l_emin n2 <= E1 * 2 ^ (r2 - r1) <= l_emax n2 ->
+  l2l_accept n1 r1 a n2 r2 sat c = true -> l_decode n2 c = LVal s (E1 * 2 ^ (r2 - r1)).
+Proof. exact l2l_exact. Qed.
+Print Assumptions C15_lns_identity_when_representable.
+Example C15_lns_witness :
+  l2l_accept 8 2 0x05 8 4 true 0x14 = true /\ l2l_accept 8 2 0x05 8 4 true 0x15 = false /\
+  l2l_accept 8 4 0x16 8 2 true 0x05 = true /\ l2l_accept 8 4 0x16 8 2 true 0x06 = true /\ l2l_accept 8 4 0x17 8 2 true 0x05 = false.
+Proof. vm_compute. repeat split; reflexivity. Qed.
